@@ -541,6 +541,10 @@ class SimNet:
             eof = len(data) < wanted
         if eof:
             # EOF / reset noticed by the reader
+            sock.eof_reads = getattr(sock, "eof_reads", 0) + 1
+            if sock.eof_reads > 3000:
+                # the reader asks the ended stream again and again without ever going back to select
+                self.world.manager_livelock(sock.idx, sock.eof_reads)
             seq = self.log("MGR_EOF", sock.idx, len(data), wanted)
             self.ends.append((seq, sock.idx, "eof"))
             if sock.rd_frame is not None and not sock.rd_frame.complete:
